@@ -208,6 +208,8 @@ impl Parser {
 
         if mask {
             let mask = rand::random::<[u8; 4]>();
+            #[cfg(actix_web_verif)]
+            let mask = verif::replace_mask(mask);
             dst.put_slice(mask.as_ref());
             dst.put_slice(payload.as_ref());
             let pos = dst.len() - payload_len;
@@ -232,6 +234,33 @@ impl Parser {
         };
 
         Parser::write_message(dst, payload, OpCode::Close, true, mask)
+    }
+}
+
+/// Verification hook, compiled only with `--cfg actix_web_verif`: frame masks come from a
+/// thread-local generator that a simulator seeds, so that an execution can be repeated exactly.
+#[cfg(actix_web_verif)]
+pub mod verif {
+    use std::cell::Cell;
+
+    thread_local! {
+        static MASK_STATE: Cell<u64> = const { Cell::new(0x9E37_79B9_7F4A_7C15) };
+    }
+
+    /// Restart the mask sequence of the current thread.
+    pub fn seed_masks(seed: u64) {
+        MASK_STATE.with(|s| s.set(seed | 1));
+    }
+
+    pub(super) fn replace_mask(_random: [u8; 4]) -> [u8; 4] {
+        MASK_STATE.with(|s| {
+            let mut x = s.get();
+            x ^= x << 13;
+            x ^= x >> 7;
+            x ^= x << 17;
+            s.set(x);
+            ((x >> 16) as u32).to_le_bytes()
+        })
     }
 }
 
